@@ -44,3 +44,11 @@ Theorem C24_untimed_schedule_independent : forall c, (0 < batchSize c)%nat -> ti
   (map b_ws (batches s), qobjs s) = part (batchSize c) (items_of (seq0 c) false l) [].
 Proof. exact untimed_drained. Qed.
 Print Assumptions C24_untimed_schedule_independent.
+
+(* Second tie (DESIGN 3.5, docs/gotrans.md): mergeQueued as translated from queue/queue.go on this run is the
+   hand model's merge (gen_merge = the generated function on the model's writes; greq = the *Request of a model
+   batch without its ghost field; nil = None). *)
+From RQ Require Import Lib.GoLib Gen.Queue Proofs.C24_Gen.
+Theorem C24_source_derived_eq : forall qs, gen_merge qs = option_map greq (merge qs).
+Proof. exact gen_mergeQueued_eq. Qed.
+Print Assumptions C24_source_derived_eq.
